@@ -32,7 +32,7 @@ def run_streams(ck, streams, tier, seed, workers=8):
             res["broken"] = "%s: harness %s failed (rc=%s): %s" % (st["name"], args[0], rc, (out + err)[-600:])
             # the harness process died (a Go panic in an engine goroutine cannot be recovered by the caller):
             # the input it was working on is the failing input
-            if st["kind"] == "monitor" and os.path.exists(cur) and ("panic:" in err or "fatal error:" in err or "goroutine " in err):
+            if os.path.exists(cur) and ("panic:" in err or "fatal error:" in err or "goroutine " in err):
                 try:
                     inp = json.load(open(cur))
                 except Exception:
@@ -135,7 +135,7 @@ def run_streams(ck, streams, tier, seed, workers=8):
                 if st.get("ignore_violations"):
                     rep = dict(rep, violations=[])
                 if st.get("violation_kinds"):
-                    rep = dict(rep, violations=[v for v in rep.get("violations", []) if v["kind"] in st["violation_kinds"]])
+                    rep = dict(rep, violations=[v for v in rep.get("violations", []) if v["kind"] in st["violation_kinds"] or v["kind"] == "engine-crashes"])
                 rep["violations"] = rep.get("violations", []) + res["extra_viol"]
                 ck.add_report(st["name"], rep)
             if res["broken"]:
